@@ -249,6 +249,9 @@ pub struct World {
     /// all items ever seen in any store: key -> bytes (C11 cross-replica byte identity)
     pub universe: BTreeMap<String, Vec<u8>>,
     pub prev_keys: Vec<BTreeSet<String>>,
+    /// (replica, item name): items the harness placed in a damaged (half-written) form, as an
+    /// interrupted file-synchronisation tool would; exempt from the C11 checks on that replica only
+    pub torn: BTreeSet<(usize, String)>,
 }
 
 impl World {
@@ -280,6 +283,7 @@ impl World {
             infos: BTreeMap::new(),
             universe: BTreeMap::new(),
             prev_keys: vec![BTreeSet::new(); n],
+            torn: BTreeSet::new(),
         })
     }
     pub fn is(&self, p: &str) -> bool {
